@@ -841,6 +841,7 @@ Lemma run_cat bv vf a na t :
   (forall i, (i < na)%nat -> width_of nl' (bid a i) = 1 /\ vf (bid a i) = b2z (bv a i)) ->
   runs [cat_net nl a na t] vf = upd vf t (bits_val bv a na).
 Proof.
+  pose proof Hids as Hids_. pose proof Hwidths as Hwidths_.
   intros Hw Hb. unfold FlattenProofs.runs, cat_net. cbn [fold_left].
   rewrite (exec_gate merge nl st vf OpConcat _ t (bits_val bv a na)); try reflexivity; try (intros; discriminate).
   - rewrite Hw. unfold bits_val. rewrite Z.mod_small; [reflexivity|].
@@ -859,6 +860,7 @@ Lemma run_selects src w n : forall s vf,
   (forall i, (s <= i < s + n)%nat -> vf' (bid w i) = b2z (Z.testbit (vf src) (Z.of_nat i)))
   /\ (forall id, (forall i, (s <= i < s + n)%nat -> id <> bid w i) -> vf' id = vf id).
 Proof.
+  pose proof Hids as Hids_. pose proof Hwidths as Hwidths_.
   induction n as [|n IH]; intros s vf H; cbv zeta; cbn [seq map].
   - unfold FlattenProofs.runs. cbn [fold_left]. split; [intros; lia|reflexivity].
   - destruct (H s ltac:(lia)) as [W0 N0].
@@ -892,3 +894,315 @@ Proof.
 Qed.
 
 End FlatStep.
+
+(* ------------------------------------------------------------------ one gate group at a time *)
+
+Section FlatSeg.
+Variable merge : bool.
+Variable nl : netlist.
+Hypothesis Hids : inc 0 (wires nl).
+Hypothesis Hwidths : forallb (fun x => 0 <=? wwidth x) (wires nl) = true.
+
+Local Notation bid := (bid nl).
+Local Notation KK := (KK nl).
+Local Notation NN := (NN nl).
+Local Notation T0 := (T0 nl).
+Local Notation nl' := (flatten merge nl).
+Local Notation wnat := (wnat nl).
+
+Variable st : state.
+Variable gst : gstate.
+Hypothesis Hmem : forall m a, smems st m a = gmems gst m a.
+Local Notation runs := (runs merge nl st).
+
+(* value(w) bit by bit on the wires computed so far *)
+Definition Inv (rdy : list wid) (vf : wid -> Z) (bv : wid -> nat -> bool) : Prop :=
+  forall a, In a rdy -> forall i, (i < wnat a)%nat -> vf (bid a i) = b2z (bv a i).
+
+Definition decl_ok (ws : list wire) (vf : wid -> Z) : Prop :=
+  (forall d, In d ws -> In d (wires nl'))
+  /\ (forall d c, In d ws -> wkind d = KConst c -> vf (wname d) = c).
+
+Definition seg_post (g : gnet) (base : Z) (vf : wid -> Z) (bv : wid -> nat -> bool) : Prop :=
+  match g with
+  | GMemWr m a na d nd en => vf base = bits_val bv a na /\ vf (base + 1) = bits_val bv d nd
+  | _ => True
+  end.
+
+Lemma lower_length bv n : length (lower nl n) = length (lower_val nl bv n).
+Proof. rewrite <- (lower_structure nl bv n), map_length. reflexivity. Qed.
+
+Lemma lower_len n : net_synth_ok nl n = true -> arity_ok (nop n) (length (nargs n)) = true ->
+  is_comb (nop n) = true -> (forall m, nop n <> OpMemRd m) -> length (lower nl n) = wnat (ndest n).
+Proof.
+  intros Hso Har Hc Hm.
+  pose proof (decompose_correct nl Hwidths (fun a => to_Z (vbits nl (fun _ _ => false) a)) (fun _ _ => false) n
+                Hso Har (fun a _ => eq_refl)) as HD.
+  rewrite (lower_length (fun _ _ => false)).
+  destruct (nop n); try discriminate Hc; try (exfalso; eapply Hm; reflexivity);
+    destruct HD as (r & _ & _ & HL); exact HL.
+Qed.
+
+Lemma mem_read_flat m a : mem_read nl' st m a = gmem_read nl (gmems gst) m a.
+Proof.
+  unfold mem_read, gmem_read. rewrite (flatten_mems merge nl).
+  destruct (find_mem (mems nl) m) as [mm|]; [destruct (mrom mm)|]; auto.
+Qed.
+
+Lemma nth_in_args' n (i : nat) : (i < length (nargs n))%nat -> In (arg n i) (nargs n).
+Proof. intros. unfold arg. apply nth_In. assumption. Qed.
+
+(* a combinational net: its gates, then the destination bits *)
+Lemma seg_comb rdy n base vf bv :
+  Inv rdy vf bv -> is_comb (nop n) = true -> net_ok nl rdy n = true -> net_synth_ok nl n = true ->
+  T0 <= base -> decl_ok (snd (emit_gnet nl (synth_net nl n) base)) vf ->
+  let vf' := runs (fst (emit_gnet nl (synth_net nl n) base)) vf in
+  let bv' := gnet_exec nl gst bv (synth_net nl n) in
+  Inv (ndest n :: rdy) vf' bv'
+  /\ (forall id, ~ (base <= id < base + gnet_size (synth_net nl n)) ->
+        (forall k, (k < wnat (ndest n))%nat -> id <> bid (ndest n) k) -> vf' id = vf id).
+Proof.
+  intros HI Hc Hok Hso Hbase [Hdecl Hconst]. unfold net_ok in Hok. rewrite Hc in Hok.
+  apply andb_true_iff in Hok. destruct Hok as [Hok Hop].
+  apply andb_true_iff in Hok. destruct Hok as [Hok Har].
+  apply andb_true_iff in Hok. destruct Hok as [Hargs Hfresh].
+  assert (Hin : forall a, In a (nargs n) -> In a rdy).
+  { intros a Ha. apply mem_in_In. rewrite forallb_forall in Hargs. auto. }
+  assert (Hnd : ~ In (ndest n) rdy).
+  { intro Hd. apply mem_in_In in Hd. rewrite Hd in Hfresh. discriminate. }
+  assert (Hother : forall vf' bv' l,
+            (forall id, ~ (base <= id < base + gnet_size (synth_net nl n)) ->
+               (forall k, (k < wnat (ndest n))%nat -> id <> bid (ndest n) k) -> vf' id = vf id) ->
+            bv' = updbits bv (ndest n) l ->
+            (forall k, (k < wnat (ndest n))%nat -> vf' (bid (ndest n) k) = b2z (bv' (ndest n) k)) ->
+            Inv (ndest n :: rdy) vf' bv').
+  { intros vf' bv' l Hfr Hbv Hd a [<-|Ha] i Hi; [apply Hd; assumption|].
+    assert (Hne : a <> ndest n) by (intro E; subst; contradiction).
+    rewrite Hfr.
+    - rewrite Hbv. unfold updbits. destruct (a =? ndest n) eqn:E; [lia|]. apply HI; assumption.
+    - destruct (bit_static merge nl Hids Hwidths a i Hi) as (_ & _ & _ & _ & _ & _ & R & _). lia.
+    - intros k Hk. apply (bid_neq merge nl Hids Hwidths); assumption. }
+  pose proof (lower_closed nl n Hso Har) as Hcl.
+  pose proof (lower_len n Hso Har Hc) as Hlen0.
+  cbv zeta. destruct (nop n) eqn:Eop; try discriminate Hc.
+  (* memory read port *)
+  16:{ unfold synth_net in *. rewrite Eop in *. cbn [emit_gnet fst snd gnet_size gnet_exec] in *.
+       cbn [arity_ok] in Har. apply Nat.eqb_eq in Har.
+       pose proof (nth_in_args' n 0 ltac:(lia)) as Ha0. set (a0 := arg n 0) in *.
+       assert (D0 : In (mkWire base (Z.of_nat (wnat a0)) KWire) (wires nl')) by (apply Hdecl; left; reflexivity).
+       assert (D1 : In (mkWire (base + 1) (Z.of_nat (wnat (ndest n))) KWire) (wires nl'))
+         by (apply Hdecl; right; left; reflexivity).
+       pose proof (lookup_width merge nl Hids Hwidths _ D0) as W0. cbn [wname wwidth] in W0.
+       pose proof (lookup_width merge nl Hids Hwidths _ D1) as W1. cbn [wname wwidth] in W1.
+       change (?x :: ?y :: ?l) with ([x] ++ [y] ++ l). rewrite !runs_app.
+       rewrite (run_cat merge nl Hids Hwidths st bv vf a0 (wnat a0) base W0).
+       2:{ intros i Hi. destruct (bit_static merge nl Hids Hwidths a0 i Hi) as (_ & _ & _ & _ & S1 & _).
+           split; [assumption|]. apply HI; [apply Hin; assumption|assumption]. }
+       set (addr := bits_val bv a0 (wnat a0)). set (vf1 := upd vf base addr).
+       assert (Hrun : runs [mkNet (OpMemRd m) [base] (base + 1)] vf1
+                      = upd vf1 (base + 1) (gmem_read nl (gmems gst) m addr mod 2 ^ Z.of_nat (wnat (ndest n)))).
+       { unfold FlattenProofs.runs. cbn [fold_left]. unfold exec_spec. cbn [nop nargs ndest arg nth].
+         rewrite W1, mem_read_flat. unfold vf1. rewrite upd_same. reflexivity. }
+       rewrite Hrun. set (data := gmem_read nl (gmems gst) m addr mod 2 ^ Z.of_nat (wnat (ndest n))).
+       set (vf2 := upd vf1 (base + 1) data).
+       destruct (run_selects merge nl Hids Hwidths st (base + 1) (ndest n) (wnat (ndest n)) 0%nat vf2) as [S1 S2].
+       { intros i Hi. destruct (bit_static merge nl Hids Hwidths (ndest n) i ltac:(lia)) as (_ & _ & _ & _ & Q1 & _ & Q2 & _).
+         split; [assumption|lia]. }
+       cbv zeta in S1, S2.
+       assert (Hfr : forall id, ~ (base <= id < base + 2) ->
+                 (forall k, (k < wnat (ndest n))%nat -> id <> bid (ndest n) k) ->
+                 runs (map (fun i => mkNet (OpSelect [Z.of_nat i]) [base + 1] (bid (ndest n) i))
+                           (seq 0 (wnat (ndest n)))) vf2 id = vf id).
+       { intros id Hid Hk. rewrite S2 by (intros i Hi; apply Hk; lia).
+         unfold vf2, vf1. rewrite !upd_other by lia. reflexivity. }
+       split; [|exact Hfr].
+       eapply Hother; [exact Hfr|reflexivity|].
+       intros k Hk. rewrite S1 by lia. unfold vf2. rewrite upd_same.
+       unfold updbits. rewrite Z.eqb_refl. rewrite nth_of_Z by assumption.
+       unfold data. rewrite Z.mod_pow2_bits_low by lia. reflexivity. }
+  (* every other combinational op: gate expressions per destination bit *)
+  all: unfold synth_net in *; rewrite Eop in Hdecl, Hconst, Hother |- *; cbn [emit_gnet fst snd gnet_size gnet_exec] in *;
+    (assert (Hlen : length (lower nl n) = wnat (ndest n)) by (apply Hlen0; intros; discriminate));
+    (destruct (emit_bits_sound merge nl Hids Hwidths st bv (Qn nl n) (ndest n) (lower nl n) 0%nat base vf)
+       as [E1 E2];
+     [ assumption | assumption | assumption | assumption
+     | intros a i Hq; unfold Qn in Hq; apply andb_true_iff in Hq; destruct Hq as [Hq1 Hq2];
+       apply mem_in_In in Hq1; apply Nat.ltb_lt in Hq2;
+       destruct (bit_static merge nl Hids Hwidths a i Hq2) as (_ & _ & _ & _ & S1 & _ & S2 & _);
+       split; [assumption|]; split; [apply HI; [apply Hin; assumption|assumption]|lia]
+     | intros a i k Hq Hk; unfold Qn in Hq; apply andb_true_iff in Hq; destruct Hq as [Hq1 Hq2];
+       apply mem_in_In in Hq1; apply Nat.ltb_lt in Hq2;
+       apply (bid_neq merge nl Hids Hwidths); [assumption|lia|];
+       intro E; subst; apply Hnd, Hin; assumption
+     | intros k Hk; cbn [Nat.add];
+       destruct (bit_static merge nl Hids Hwidths (ndest n) k ltac:(lia)) as (_ & _ & _ & _ & S1 & _ & S2 & _);
+       split; [assumption|lia]
+     | ]);
+    cbv zeta in E1, E2; cbn [Nat.add] in E1, E2;
+    (assert (Hfr : forall id, ~ (base <= id < base + bits_size (lower nl n)) ->
+               (forall k, (k < wnat (ndest n))%nat -> id <> bid (ndest n) k) ->
+               runs (fst (emit_bits nl (ndest n) 0 (lower nl n) base)) vf id = vf id)
+       by (intros id Hid Hk; apply E2; [assumption|intros k Hk'; apply Hk; lia]));
+    (split; [|exact Hfr]);
+    (eapply Hother; [exact Hfr|reflexivity|]);
+    intros k Hk; rewrite E1 by lia; unfold updbits; rewrite Z.eqb_refl;
+    change false with (geval bv (GConst false)); rewrite map_nth; reflexivity.
+Qed.
+
+
+Lemma inv_frame rdy vf vf' bv base : T0 <= base -> Inv rdy vf bv ->
+  (forall id, id < base -> vf' id = vf id) -> Inv rdy vf' bv.
+Proof.
+  intros Hb HI Hfr a Ha i Hi. rewrite Hfr; [apply HI; assumption|].
+  destruct (bit_static merge nl Hids Hwidths a i Hi) as (_ & _ & _ & _ & _ & _ & R & _). lia.
+Qed.
+
+(* a register net or a memory write port *)
+Lemma seg_seq rdy n base vf bv :
+  Inv rdy vf bv -> is_comb (nop n) = false ->
+  (forall a, In a (nargs n) -> In a rdy) -> arity_ok (nop n) (length (nargs n)) = true ->
+  T0 <= base -> decl_ok (snd (emit_gnet nl (synth_net nl n) base)) vf ->
+  let vf' := runs (fst (emit_gnet nl (synth_net nl n) base)) vf in
+  (forall id, ~ (base <= id < base + gnet_size (synth_net nl n)) -> vf' id = vf id)
+  /\ seg_post (synth_net nl n) base vf' bv.
+Proof.
+  intros HI Hc Hin Har Hbase [Hdecl Hconst]. cbv zeta.
+  destruct (nop n) eqn:Eop; try discriminate Hc; unfold synth_net in *; rewrite Eop in *;
+    cbn [emit_gnet fst snd gnet_size seg_post] in *.
+  - (* registers: no combinational effect *)
+    rewrite runs_noncomb; [split; [reflexivity|exact I]|].
+    intros x Hx. apply in_map_iff in Hx. destruct Hx as [i [<- _]]. reflexivity.
+  - (* memory write port: address and data re-assembled *)
+    cbn [arity_ok] in Har. apply Nat.eqb_eq in Har.
+    pose proof (nth_in_args' n 0 ltac:(lia)) as Ha0. pose proof (nth_in_args' n 1 ltac:(lia)) as Ha1.
+    set (a0 := arg n 0) in *. set (a1 := arg n 1) in *.
+    assert (D0 : In (mkWire base (Z.of_nat (wnat a0)) KWire) (wires nl')) by (apply Hdecl; left; reflexivity).
+    assert (D1 : In (mkWire (base + 1) (Z.of_nat (wnat a1)) KWire) (wires nl'))
+      by (apply Hdecl; right; left; reflexivity).
+    pose proof (lookup_width merge nl Hids Hwidths _ D0) as W0. cbn [wname wwidth] in W0.
+    pose proof (lookup_width merge nl Hids Hwidths _ D1) as W1. cbn [wname wwidth] in W1.
+    change [?x; ?y; ?z] with ([x] ++ [y] ++ [z]). rewrite !runs_app.
+    rewrite (run_cat merge nl Hids Hwidths st bv vf a0 (wnat a0) base W0).
+    2:{ intros i Hi. destruct (bit_static merge nl Hids Hwidths a0 i Hi) as (_ & _ & _ & _ & S1 & _).
+        split; [assumption|]. apply HI; [apply Hin; assumption|assumption]. }
+    set (vf1 := upd vf base (bits_val bv a0 (wnat a0))).
+    rewrite (run_cat merge nl Hids Hwidths st bv vf1 a1 (wnat a1) (base + 1) W1).
+    2:{ intros i Hi. destruct (bit_static merge nl Hids Hwidths a1 i Hi) as (_ & _ & _ & _ & S1 & _ & S2 & _).
+        split; [assumption|]. unfold vf1. rewrite upd_other by lia. apply HI; [apply Hin; assumption|assumption]. }
+    set (vf2 := upd vf1 (base + 1) (bits_val bv a1 (wnat a1))).
+    rewrite runs_noncomb by (intros x [<-|[]]; reflexivity).
+    split; [|split].
+    + intros id Hid. unfold vf2, vf1. rewrite !upd_other by lia. reflexivity.
+    + unfold vf2, vf1. rewrite upd_other by lia. apply upd_same.
+    + unfold vf2. apply upd_same.
+Qed.
+
+(* ---- lists of groups ---- *)
+
+Lemma emit_gnets_cons g r base :
+  emit_gnets nl (g :: r) base
+  = (fst (emit_gnet nl g base) ++ fst (emit_gnets nl r (base + gnet_size g)),
+     snd (emit_gnet nl g base) ++ snd (emit_gnets nl r (base + gnet_size g))).
+Proof.
+  cbn [emit_gnets]. destruct (emit_gnet nl g base). destruct (emit_gnets nl r (base + gnet_size g)). reflexivity.
+Qed.
+
+Lemma decl_split ws1 ws2 vf : decl_ok (ws1 ++ ws2) vf -> decl_ok ws1 vf /\ decl_ok ws2 vf.
+Proof.
+  intros [H1 H2]. split; split; intros; try (apply H1; apply in_or_app; auto); eapply H2; eauto; apply in_or_app; auto.
+Qed.
+
+Lemma decl_frame ws vf vf' lo : decl_ok ws vf -> inc (lo - 1) ws -> (forall id, lo <= id -> vf' id = vf id) ->
+  decl_ok ws vf'.
+Proof.
+  intros [H1 H2] Hi Hfr. split; [assumption|]. intros d c Hd Hk.
+  rewrite Hfr; [eapply H2; eassumption|]. pose proof (inc_lower _ _ _ Hi Hd). lia.
+Qed.
+
+Lemma comb_list : forall ns rdy base vf bv,
+  (forall n, In n ns -> is_comb (nop n) = true /\ net_synth_ok nl n = true) ->
+  Inv rdy vf bv -> nets_ok nl rdy ns = true -> T0 <= base ->
+  decl_ok (snd (emit_gnets nl (map (synth_net nl) ns) base)) vf ->
+  let vf' := runs (fst (emit_gnets nl (map (synth_net nl) ns) base)) vf in
+  let bv' := fold_left (gnet_exec nl gst) (map (synth_net nl) ns) bv in
+  Inv (fold_left rdy_next ns rdy) vf' bv'
+  /\ (forall id, ~ (base <= id < base + gnets_size (map (synth_net nl) ns)) ->
+        (forall n k, In n ns -> (k < wnat (ndest n))%nat -> id <> bid (ndest n) k) -> vf' id = vf id).
+Proof.
+  induction ns as [|n r IH]; intros rdy base vf bv Hall HI Hok Hbase Hdecl; cbv zeta.
+  - cbn [map emit_gnets fst fold_left]. unfold FlattenProofs.runs. cbn [fold_left]. split; [assumption|reflexivity].
+  - destruct (Hall n (or_introl eq_refl)) as [Hc Hso].
+    cbn [WFDefs.nets_ok] in Hok. apply andb_true_iff in Hok. destruct Hok as [Hn Hr].
+    cbn [map]. rewrite emit_gnets_cons in *. cbn [fst snd] in *. cbn [fold_left].
+    apply decl_split in Hdecl. destruct Hdecl as [Hd1 Hd2].
+    destruct (seg_comb rdy n base vf bv HI Hc Hn Hso Hbase Hd1) as [S1 S2]. cbv zeta in S1, S2.
+    rewrite runs_app.
+    set (vf1 := runs (fst (emit_gnet nl (synth_net nl n) base)) vf) in *.
+    set (bv1 := gnet_exec nl gst bv (synth_net nl n)) in *.
+    pose proof (gnet_size_nonneg (synth_net nl n)) as G1.
+    pose proof (gnets_size_nonneg (map (synth_net nl) r)) as G2.
+    destruct (emit_gnets_wires nl (map (synth_net nl) r) (base + gnet_size (synth_net nl n))) as [W1 W2].
+    destruct (IH (rdy_next rdy n) (base + gnet_size (synth_net nl n)) vf1 bv1) as [I1 I2].
+    + intros x Hx. apply Hall. right. assumption.
+    + unfold rdy_next. rewrite Hc. exact S1.
+    + exact Hr.
+    + lia.
+    + apply (decl_frame _ vf vf1 (base + gnet_size (synth_net nl n))); [assumption|assumption|].
+      intros id Hid. apply S2; [lia|]. intros k Hk.
+      destruct (bit_static merge nl Hids Hwidths (ndest n) k Hk) as (_ & _ & _ & _ & _ & _ & R & _). lia.
+    + cbv zeta in I1, I2. split; [exact I1|].
+      change (gnets_size (synth_net nl n :: map (synth_net nl) r))
+        with (gnet_size (synth_net nl n) + gnets_size (map (synth_net nl) r)).
+      intros id Hid Hk. rewrite I2.
+      * apply S2; [lia|]. intros k Hk'. apply (Hk n k); [left; reflexivity|assumption].
+      * lia.
+      * intros x k Hx Hk'. apply (Hk x k); [right; assumption|assumption].
+Qed.
+
+Fixpoint wr_post (gs : list gnet) (base : Z) (vf : wid -> Z) (bv : wid -> nat -> bool) : Prop :=
+  match gs with
+  | [] => True
+  | g :: r => seg_post g base vf bv /\ wr_post r (base + gnet_size g) vf bv
+  end.
+
+Lemma seg_post_frame g base vf vf' bv :
+  (forall id, base <= id < base + gnet_size g -> vf' id = vf id) -> seg_post g base vf bv -> seg_post g base vf' bv.
+Proof.
+  destruct g; cbn [seg_post gnet_size]; auto. intros Hfr [H1 H2]. rewrite !Hfr by lia. auto.
+Qed.
+
+Lemma seq_list rdy bv : forall ns base vf,
+  (forall n, In n ns -> is_comb (nop n) = false /\ (forall a, In a (nargs n) -> In a rdy)
+                        /\ arity_ok (nop n) (length (nargs n)) = true) ->
+  Inv rdy vf bv -> T0 <= base ->
+  decl_ok (snd (emit_gnets nl (map (synth_net nl) ns) base)) vf ->
+  let vf' := runs (fst (emit_gnets nl (map (synth_net nl) ns) base)) vf in
+  (forall id, ~ (base <= id < base + gnets_size (map (synth_net nl) ns)) -> vf' id = vf id)
+  /\ wr_post (map (synth_net nl) ns) base vf' bv.
+Proof.
+  induction ns as [|n r IH]; intros base vf Hall HI Hbase Hdecl; cbv zeta.
+  - cbn [map emit_gnets fst wr_post]. unfold FlattenProofs.runs. cbn [fold_left]. split; [reflexivity|exact I].
+  - destruct (Hall n (or_introl eq_refl)) as (Hc & Hin & Har).
+    cbn [map]. rewrite emit_gnets_cons in *. cbn [fst snd] in *. cbn [wr_post].
+    apply decl_split in Hdecl. destruct Hdecl as [Hd1 Hd2].
+    destruct (seg_seq rdy n base vf bv HI Hc Hin Har Hbase Hd1) as [S1 S2]. cbv zeta in S1, S2.
+    rewrite runs_app.
+    set (vf1 := runs (fst (emit_gnet nl (synth_net nl n) base)) vf) in *.
+    pose proof (gnet_size_nonneg (synth_net nl n)) as G1.
+    pose proof (gnets_size_nonneg (map (synth_net nl) r)) as G2.
+    destruct (emit_gnets_wires nl (map (synth_net nl) r) (base + gnet_size (synth_net nl n))) as [W1 W2].
+    destruct (IH (base + gnet_size (synth_net nl n)) vf1) as [I1 I2].
+    + intros x Hx. apply Hall. right. assumption.
+    + apply (inv_frame rdy vf vf1 bv base Hbase HI). intros id Hid. apply S1. lia.
+    + lia.
+    + apply (decl_frame _ vf vf1 (base + gnet_size (synth_net nl n))); [assumption|assumption|].
+      intros id Hid. apply S1. lia.
+    + cbv zeta in I1, I2.
+      change (gnets_size (synth_net nl n :: map (synth_net nl) r))
+        with (gnet_size (synth_net nl n) + gnets_size (map (synth_net nl) r)).
+      split; [|split; [|exact I2]].
+      * intros id Hid. rewrite I1 by lia. apply S1. lia.
+      * apply (seg_post_frame _ base vf1); [|exact S2]. intros id Hid. apply I1. lia.
+Qed.
+
+End FlatSeg.
